@@ -43,6 +43,12 @@ abbrev OtherClassesAccounted (T : Tables) : Prop :=
   T.otherClasses.Nodup ∧ (∀ x ∈ T.otherClasses, x ∈ T.supportClasses ∨ x ∈ T.enumTypes) ∧
     (∀ x ∈ T.enumTypes, x ∈ T.otherClasses) ∧ (∀ x ∈ T.otherClasses, x ∉ T.classes)
 
+/-- the imports the helper methods can rely on: nml.py's module-level imports (beyond generateDS's own) are
+    exactly those of the custom imports template that regeneration pastes in (an import added on one side only
+    makes a helper fail after the next regeneration, or is dead weight) -/
+abbrev ImportsAgree (T : Tables) : Prop :=
+  (∀ x ∈ T.shippedImports, x ∈ T.templateImports) ∧ (∀ x ∈ T.templateImports, x ∈ T.shippedImports)
+
 /-- the declared current version selects (through regenerate-nml.sh's own pipeline and template) the schema
     named in the bindings' header, which is bundled, is the one the complex types were read from, and is the
     one the writer's schemaLocation names -/
@@ -74,6 +80,8 @@ theorem c20_types : TypesCorrespond T :=
    subsetB_sound _ _ (by decide +kernel), subsetB_sound _ _ (by decide +kernel)⟩
 
 theorem c20_other_classes : OtherClassesAccounted T := by decide +kernel
+
+theorem c20_imports : ImportsAgree T := by decide +kernel
 
 theorem c20_version : VersionsAgree T.versions := by decide +kernel
 
